@@ -289,6 +289,13 @@ def run(ctx):
                            "a client that reads the output only after a pause (more response bytes pending than the stdout pipe holds) does "
                            "not get exactly one response per request in order: " + why))
         confirmed.append(("slow", n, size))
+    # one response far beyond every write buffer (3 MiB), followed by further requests, shutdown and exit
+    from props import c19
+    bigp, _ = c19.big_check(exe, 3 << 20, 1 << 16, [])
+    if bigp and all(c19.big_check(exe, 3 << 20, 1 << 16, [])[0] for _ in range(2)):
+        ctx.violation(dict(kind="oracle", property="C18", big=dict(n_out=3 << 20, n_in=1 << 16), problems=bigp[:4], what=
+                           "a session with a response of 3 MiB: not every request gets its response / exit status: " + bigp[0]))
+        confirmed.append(("big", 0, 0))
     ctx.cov["slow_reader_sessions"] = [dict(requests=n, method_name_bytes=s, pause_s=p) for n, s, p in slow_cfg]
     # kernel judge on a sample: the same comparison made by coqc's VM
     kfail = []
@@ -332,6 +339,11 @@ def replay(ctx, path):
     r = json.load(open(path))
     exe, _ = common.build_server()
     judge, _ = common.build_judge()
+    if "big" in r:
+        from props import c19
+        problems, _ = c19.big_check(exe, r["big"]["n_out"], r["big"]["n_in"], [])
+        print(problems or "every request answered")
+        return 1 if problems else 0
     if "slow_reader" in r:
         c = r["slow_reader"]
         why = slow_reader(exe, c["requests"], c["method_name_bytes"], c["pause_s"])
